@@ -50,6 +50,7 @@ func (propC08) Gen(r *Rng, tier string) *World {
 	k.FailOp = r.P(0.3)
 	k.NoSetConst = true
 	k.PUnbound = 0
+	k.RawConsts = r.P(0.3)
 	g := NewGen(r, k)
 	w := &World{Prop: "C08", Extra: map[string]string{}}
 	np := r.Range(1, 3)
